@@ -125,6 +125,20 @@ static void check_case(vg::Src& s, vh::Ctx& c)
         threw = true;
         what = e.what();
     }
+    if (!threw && m.ctor_throws && m.throw_reason == "override out of range")
+    {
+        // The statement lists what must be refused (asymmetric looped borders, looped as or over a
+        // per-node override); an override whose index lies outside the grid designates no node.
+        // The library refuses it; a library that ignored it would satisfy the statement as well -
+        // then the array has to be the composition of the remaining entries.
+        va::GridSpec sp_in = sp;
+        sp_in.overrides.clear();
+        for (auto& o : sp.overrides)
+            if ((sp.kind == va::K_RASTER ? (o.row < sp.rows && o.col < sp.cols) : o.col < m.n))
+                sp_in.overrides.push_back(o);
+        m = vm::build_model(sp_in);
+        c.label("out-of-range-override-ignored-by-the-library");
+    }
     c.expect(threw == m.ctor_throws,
              "ctor-accept-reject",
              std::string("constructor ") + (threw ? "threw (" + what + ")" : "accepted") + " but the status rules say "
